@@ -1,10 +1,12 @@
 #!/venv/bin/python
-"""Run the repository's pinned baseline (BASELINE.json cmd) with the hook guard OFF and compare with stable_pass."""
+"""Run the repository's pinned baseline (BASELINE.json cmd) with the hook guard OFF and compare with stable_pass.
+usage: tools/baseline.py [root]   (default /repo; a scratch worktree for seeded changes)"""
 import json, os, subprocess, sys, tempfile, xml.etree.ElementTree as ET
 
 b = json.load(open("/root/.vp/BASELINE.json"))
 out = tempfile.mktemp(suffix=".xml", dir="/verif/.scratch" if os.path.isdir("/verif/.scratch") else None)
-cmd = b["cmd"].replace("<file>", out)
+root = sys.argv[1] if len(sys.argv) > 1 else "/repo"
+cmd = b["cmd"].replace("<file>", out).replace("cd /repo", f"cd {root}")
 env = dict(os.environ)
 env.pop("MITMPROXY_VERIF", None)
 p = subprocess.run(cmd, shell=True, env=env, capture_output=True, text=True)
